@@ -637,6 +637,11 @@ def published(S, cls):
     bc = S.v(BC_MEMBER[cls])
     out = []
     out.append(('segment_count', n.eq(seg.size()) & S.is_initialized_))
+    out.append(('one_coefficient_block_per_segment', C.R.eq(nc * n)))
+    if cls == 'CubicSplineND':
+        tp = S.v('time_powers_')
+        out.append(('cached_durations', tp.size().eq(n)))
+        out.append(('cached_durations_are_the_durations', S.forall(0, n, lambda i: tp_field(S, i, 'h').eq(seg.at(i)))))
     out.append(('knot_times_start', cum.size().eq(n + 1) & cum.at(0).eq(S.start_time_)))
     out.append(('knot_times_advance_by_durations', S.forall(0, n, lambda i: cum.at(i + 1).eq(cum.at(i) + seg.at(i)))))
     out.append(('trajectory_initialised', T.fields['is_initialized_'].rd() & T.fields['num_segments_'].rd().eq(n) & T.fields['num_coeffs_'].rd().eq(nc)))
@@ -1006,3 +1011,52 @@ def ident(b):
 
 def tr_(A):
     return [[A[c][r] for c in range(len(A))] for r in range(len(A[0]))]
+
+
+# ------------------------------------------------------------------------------------------------ gradient entry points: shapes and frames
+GRAD_WS = {'CubicSplineND': ['ws_lambda_'], 'QuinticSplineND': ['ws_lambda_', 'ws_gd_internal_'], 'SepticSplineND': ['ws_lambda_', 'ws_gd_internal_']}
+
+
+def grads_shape(S, g, n):
+    return [('one_duration_gradient_per_segment', g.fields['times'].R.eq(n)),
+            ('one_point_gradient_per_inner_waypoint', g.fields['inner_points'].R.eq(ite(n > 1, n - 1, 0)))]
+
+
+def make_gradient_frame_contracts(cls):
+    nc = nc_of_cls(cls)
+
+    class PropagateGradInto(Contract):
+        """shape and frame of propagateGrad(gdC, gdT, grads&); what the numbers are is the subject of C05"""
+        key = cls + '.propagateGrad'
+        nparams = 3
+
+        def spec(self, S):
+            n = S.num_segments_
+            g = S.v('grads')
+            S.requires((n >= 1) & (n <= NMAX) & S.is_initialized_, 'built_spline')
+            S.requires(S.v('partialGradByCoeffs').R.eq(nc * n) & S.v('partialGradByTimes').R.eq(n), 'one_upstream_row_per_coefficient_and_duration')
+            S.assigns(g, *[S.v(x) for x in GRAD_WS[cls] if S.has(x)])
+            for label, p in grads_shape(S, g, n):
+                S.ensures(p, label)
+
+    class EnergyGradInto(Contract):
+        """shape and frame of getEnergyGrad(grads&); what the numbers are is the subject of C06"""
+        key = cls + '.getEnergyGrad'
+        nparams = 1
+
+        def spec(self, S):
+            n = S.num_segments_
+            g = S.v('grads')
+            S.requires((n >= 1) & (n <= NMAX) & S.is_initialized_, 'built_spline')
+            S.assigns(g)
+            for label, p in grads_shape(S, g, n):
+                S.ensures(p, label)
+
+    PropagateGradInto.__name__ = cls + 'PropagateGradInto'
+    EnergyGradInto.__name__ = cls + 'EnergyGradInto'
+    register(PropagateGradInto)
+    register(EnergyGradInto)
+
+
+for _c in ORDER_OF:
+    make_gradient_frame_contracts(_c)
